@@ -6,6 +6,7 @@ import SlacModel.Spec
 import SlacModel.Num
 import SlacModel.Env
 import SlacModel.Unicode
+import SlacModel.Token
 open Slac
 
 namespace Codec
@@ -102,6 +103,46 @@ partial def showExpr : Ex → String
   | .ternary l m r op => s!"T {opName op} {showExpr l} {showExpr m} {showExpr r}"
   | .array es => String.intercalate " " (s!"R {es.length}" :: es.map showExpr)
   | .call f es => String.intercalate " " (s!"C {hex f} {es.length}" :: es.map showExpr)
+
+def tokNames : List (String × Token Float) := [("(", .leftParen), (")", .rightParen), ("[", .leftBracket), ("]", .rightBracket),
+  ("+", .plus), ("-", .minus), ("*", .star), ("/", .slash), (",", .comma), (">", .greater), (">=", .greaterEqual), ("<", .less),
+  ("<=", .lessEqual), ("=", .equal), ("<>", .notEqual), ("and", .and), ("or", .or), ("xor", .xor), ("not", .not), ("div", .div), ("mod", .mod)]
+
+def tokName : Token Float → String
+  | .leftParen => "(" | .rightParen => ")" | .leftBracket => "[" | .rightBracket => "]" | .plus => "+" | .minus => "-"
+  | .star => "*" | .slash => "/" | .comma => "," | .greater => ">" | .greaterEqual => ">=" | .less => "<" | .lessEqual => "<="
+  | .equal => "=" | .notEqual => "<>" | .and => "and" | .or => "or" | .xor => "xor" | .not => "not" | .div => "div" | .mod => "mod"
+  | .literal v => "# " ++ showVal v
+  | .identifier n => "@" ++ hex n
+
+def parseTok : P (Token Float)
+  | "#" :: r => (parseVal r).map fun (v, r) => (.literal v, r)
+  | t :: r =>
+    if t.startsWith "@" then some (.identifier (unhex (t.drop 1).toString), r)
+    else (tokNames.find? (·.1 == t)).map fun (_, k) => (k, r)
+  | [] => none
+
+partial def parseToks (r : List String) (acc : List (Token Float)) : Option (List (Token Float)) :=
+  match r with
+  | [] => some acc.reverse
+  | _ => match parseTok r with
+    | some (t, r') => parseToks r' (t :: acc)
+    | none => none
+
+def showToks (ts : List (Token Float)) : String := if ts.isEmpty then "-" else String.intercalate " " (ts.map tokName)
+
+def showCErr : CErr Float → String
+  | .eof => "Eof"
+  | .invalidCharacter c => "InvalidCharacter " ++ String.ofList (Nat.toDigits 16 c.toNat)
+  | .invalidNumber => "InvalidNumber"
+  | .unterminatedStringLiteral => "UnterminatedStringLiteral"
+  | .multipleExpressions _ => "MultipleExpressions"
+  | .noValidPrefixToken _ => "NoValidPrefixToken"
+  | .noValidInfixToken _ => "NoValidInfixToken"
+  | .callNotOnVariable _ => "CallNotOnVariable"
+  | .previousTokenNotFound => "PreviousTokenNotFound"
+  | .invalidToken _ => "InvalidToken"
+  | .tokenNotAnOperator _ => "TokenNotAnOperator"
 
 def showNativeErr : NativeError → String
   | .functionNotFound n => "FunctionNotFound " ++ hex n
